@@ -4,6 +4,7 @@
 -/
 import NextestModel.Lemmas.Dispatcher
 import NextestModel.Lemmas.Junit
+import NextestModel.Lemmas.Attempts
 namespace NextestModel.C17
 open NextestModel.Dispatcher
 
@@ -460,6 +461,28 @@ example : writeEvents [] [.scriptFinished "db" .pass true true, .testFinished "a
           { key := .binary "b::u", cases := [
               { name := "bad", status := some (.failure, "test timeout"), main := 0, stored := true,
                 reruns := [{ kind := .failure, ty := "test abort", attempt := 1, stored := true }] }] }] := by decide
+
+/-- **the hypothesis of the JUnit theorems is what the executor produces**: the statuses a unit reports with `Finished` are
+    non-empty and every one but the last is a failure — for every retry policy, every behaviour of the processes and every
+    pattern of acknowledgements (`Model/Attempts` = the attempt loop of `run_test_instance`) -/
+theorem finished_statuses_wellformed (p : Classify.Policy) (env : Attempts.Env) (evs : List Attempts.XEv)
+    (h : Attempts.runTestInstance p env = some evs) (rs : List Res) (hrs : rs ∈ Attempts.finisheds evs) : WFAttempts rs := by
+  unfold Attempts.runTestInstance at h
+  split at h
+  · simp at h; subst h; simp [Attempts.finisheds] at hrs
+  · cases hl : Attempts.loop (p.count + 1) env (p.count + 1) 0 [] (Classify.delays p) with
+    | none => simp [hl] at h
+    | some rest =>
+      simp [hl] at h; subst h
+      simp only [Attempts.finisheds] at hrs
+      rcases Attempts.loop_finished _ env _ 0 [] _ rest (by omega) hl with h0 | ⟨h1, _, h3, _⟩
+      · rw [h0] at hrs; cases hrs
+      · rw [h1] at hrs; simp at hrs; subst hrs
+        refine ⟨by simpa using h3, ?_⟩
+        intro r hr
+        rw [← List.map_dropLast] at hr
+        obtain ⟨k, hk, rfl⟩ := List.mem_map.mp hr
+        exact (Attempts.loop_discipline _ env _ 0 [] _ rest hl).1 k hk
 
 end junit
 
